@@ -141,7 +141,36 @@ fn all_descs(m: &MMappings) -> Vec<&S> {
 fn no_collision(m: &MMappings, t0: usize) -> bool {
 	let keys: HashSet<&S> = m.classes.iter().filter_map(|c| c.names[0].as_ref()).collect();
 	let targets: HashSet<&S> = m.classes.iter().filter_map(|c| c.names[t0].as_ref()).collect();
-	all_descs(m).iter().all(|d| ref_desc_classes(d).iter().all(|x| keys.contains(x) || !targets.contains(x)))
+	// a descriptor that does not scan mentions no class (as in the model: desc_classes d = [] then)
+	let classes_of = |d: &S| if ref_map_desc(d, &HashMap::new()).is_some() { ref_desc_classes(d) } else { vec![] };
+	all_descs(m).iter().all(|d| classes_of(d).iter().all(|x| keys.contains(x) || !targets.contains(x)))
+}
+/// two entries that get the same key in the new first namespace `t0`: two classes with the same name there, or two
+/// fields (two methods) of one class with the same name there and the same rewritten descriptor (C08_reorder_collision_err)
+fn key_collision(m: &MMappings, t0: usize) -> bool {
+	let mut cmap: HashMap<S, S> = HashMap::new();
+	for c in &m.classes { if let (Some(a), Some(b)) = (&c.names[0], &c.names[t0]) { cmap.insert(a.clone(), b.clone()); } }
+	fn dup<K: std::hash::Hash + Eq>(keys: Vec<Option<K>>) -> bool { let mut s = HashSet::new(); keys.into_iter().flatten().any(|k| !s.insert(k)) }
+	let key2 = |names: &NamesRow, desc: &S| match (&names[t0], ref_map_desc(desc, &cmap)) { (Some(n), Some(d)) => Some((n.clone(), d)), _ => None };
+	dup(m.classes.iter().map(|c| c.names[t0].clone()).collect())
+		|| m.classes.iter().any(|c| dup(c.fields.iter().map(|f| key2(&f.names, &f.desc)).collect()) || dup(c.methods.iter().map(|f| key2(&f.names, &f.desc)).collect()))
+}
+/// the model's `wf` (coq/Quill/Mappings.v), evaluated by the harness
+fn wf(m: &MMappings) -> bool {
+	let n = m.ns.len();
+	let row_ok = |r: &NamesRow| r.len() == n && r.iter().all(|o| o.as_ref().map_or(true, |s| !s.is_empty()));
+	fn uniq<K: std::hash::Hash + Eq>(keys: Vec<K>) -> bool { let mut s = HashSet::new(); keys.into_iter().all(|k| s.insert(k)) }
+	n >= 2 && m.ns.iter().all(|s| !s.is_empty())
+		&& m.classes.iter().all(|c| row_ok(&c.names) && c.names[0].is_some()
+			&& c.fields.iter().all(|f| row_ok(&f.names) && f.names[0].is_some())
+			&& uniq(c.fields.iter().map(|f| (f.names[0].clone(), f.desc.clone())).collect())
+			&& c.methods.iter().all(|me| row_ok(&me.names) && me.names[0].is_some() && me.params.iter().all(|p| row_ok(&p.names)) && uniq(me.params.iter().map(|p| p.index).collect()))
+			&& uniq(c.methods.iter().map(|me| (me.names[0].clone(), me.desc.clone())).collect()))
+		&& uniq(m.classes.iter().map(|c| c.names[0].clone()).collect())
+}
+/// a correspondence case that ties the harness' evaluation of the theorems' hypotheses / failure causes to the Coq definitions
+fn hyp_case(r: &mut Report, m: &MMappings, t0: usize, stream: &str) {
+	r.case(stream, format!("CHyp {} {} {} {} {} {} {}", g_mappings(m), t0, gbool(wf(m)), gbool(no_collision(m, t0)), gbool(clean(m)), gbool(entry_without_name(m, t0)), gbool(key_collision(m, t0))));
 }
 fn clean(m: &MMappings) -> bool { m.classes.iter().all(|c| c.names.iter().flatten().all(|s| !s.contains(&SEMI))) }
 fn entry_without_name(m: &MMappings, t0: usize) -> bool {
@@ -215,7 +244,7 @@ fn through(r: &mut Report, m: &MMappings, names: &[S], stream: &str) -> anyhow::
 			let same = match (got, &want) { (None, None) => true, (Some(a), Some(b)) => a.equiv(b), _ => false };
 			if !same {
 				let what = match (got, &want) {
-					(Some(_), None) => "reorder returned Ok although an entry has no name in the new first namespace / two entries get the same key / a descriptor is malformed",
+					(Some(_), None) => "reorder returned Ok although a requested namespace does not exist / an entry has no name in the new first namespace / two entries get the same key / a descriptor is malformed",
 					(None, Some(_)) => "reorder failed although every entry has a unique key in the new first namespace",
 					_ => "reorder's result differs from the reference (rows permuted, descriptors re-expressed, comments and indices untouched)",
 				};
@@ -226,6 +255,16 @@ fn through(r: &mut Report, m: &MMappings, names: &[S], stream: &str) -> anyhow::
 				if !table.is_empty() && entry_without_name(m, table[0]) {
 					r.count(&format!("{stream}:entry-without-name"));
 					if got.is_some() { vio(r, "an entry without a name in the new first namespace was not rejected".into(), m, names, &show_outcome(&out)); }
+				}
+				// collision law (C08_reorder_collision_err): two entries that get the same key in the new first namespace => Err
+				if !table.is_empty() && key_collision(m, table[0]) {
+					r.count(&format!("{stream}:key-collision"));
+					if got.is_some() { vio(r, "two entries that get the same key in the new first namespace were not rejected (one of them was dropped or overwritten)".into(), m, names, &show_outcome(&out)); }
+				}
+				// the four causes (C08_reorder_err_iff): without any of them reorder must succeed
+				if !table.is_empty() && wf(m) && !entry_without_name(m, table[0]) && !key_collision(m, table[0]) && all_descs(m).iter().all(|d| ref_map_desc(d, &HashMap::new()).is_some()) {
+					r.count(&format!("{stream}:no-cause-of-failure"));
+					if got.is_none() { vio(r, "reorder failed although every class, field and method has a name in the new first namespace, no two entries get the same key there and every descriptor is well-formed".into(), m, names, &show_outcome(&out)); }
 				}
 				if let Some(m2) = got {
 					if m2.size() != m.size() { vio(r, "entries were dropped or added".into(), m, names, &show_outcome(&out)); }
@@ -382,11 +421,13 @@ fn all_perms(r: &mut Report, m: &MMappings, stream: &str) -> anyhow::Result<()> 
 		match g_outcome(&out) { Some(g) => outs.push(g), None => return Ok(()) }
 	}
 	r.case(stream, format!("CPerms {} {}", g_mappings(m), glist(outs)));
+	if m.classes.len() <= 3 { hyp_case(r, m, m.ns.len() - 1, "hypotheses"); }
 	Ok(())
 }
 fn one_out(r: &mut Report, m: &MMappings, names: &[S], stream: &str) -> anyhow::Result<Outcome> {
 	let out = through(r, m, names, stream)?;
 	if let Some(g) = g_outcome(&out) { r.case(stream, format!("CReorder {} {} {}", g_mappings(m), g_names_list(names), g)); }
+	if let Some(t) = ref_table(m, names) { if !t.is_empty() { hyp_case(r, m, t[0], "hypotheses"); } }
 	Ok(out)
 }
 fn one(r: &mut Report, m: &MMappings, names: &[S], stream: &str) -> anyhow::Result<()> { one_out(r, m, names, stream).map(|_| ()) }
@@ -402,7 +443,7 @@ pub fn run(ctx: &Ctx) -> anyhow::Result<Report> {
 	let mut r = Report::new("C08", "C08.Run");
 	let mut rng = Rng::new(ctx.seed);
 	let t = ctx.thorough;
-	r.rule = "mapping sets with n = 2, 3, 4 namespaces from mapmodel::gen_mappings (classes with $-nesting and packages, fields, methods, parameters with holes, comments at every level including the mapping set's own comment (probability 1/3, set here: the shared generator leaves it None), unicode) post-processed so that every row is full and names are unique per level and column ('full'), or with random holes ('partial'); descriptors mention mapped classes, unmapped classes and arrays of both; for each set EVERY permutation of its namespaces is reordered (the Coq model enumerates the n! permutations itself, CPerms). Further streams: an entry without a name in the future first namespace (must fail), duplicate names in the future first namespace (duplicate key => Err), an unmapped descriptor class equal to a target name (collision: hypothesis of the inverse law violated), a class name containing ';', malformed descriptors, non-permutation / unknown / duplicate namespace arrays, remapper_a(from,to).map_field_desc on valid and malformed descriptors, the repository's fixture. Oracle on the implementation: independent reference reorder (equal up to order), identity law, inverse law on the implementation's own output (when no_collision and clean hold), two-step law on the implementation's own output (reordering the result to a further order Y = reordering the original to Y directly, Ok up to order or Err; every Y for n <= 3, six of the 24 for n = 4; same hypotheses), failure law, key/info sync of the result, entry count. One evaluation = one (mapping set, namespace array); non-trivial = at least one class and the result is Ok; distinct by the printed input.".into();
+	r.rule = "mapping sets with n = 2, 3, 4 namespaces from mapmodel::gen_mappings (classes with $-nesting and packages, fields, methods, parameters with holes, comments at every level including the mapping set's own comment (probability 1/3, set here: the shared generator leaves it None), unicode) post-processed so that every row is full and names are unique per level and column ('full'), or with random holes ('partial'); descriptors mention mapped classes, unmapped classes and arrays of both; for each set EVERY permutation of its namespaces is reordered (the Coq model enumerates the n! permutations itself, CPerms). Further streams: an entry without a name in the future first namespace (must fail), duplicate names in the future first namespace (duplicate key => Err), an unmapped descriptor class equal to a target name (collision: hypothesis of the inverse law violated), a class name containing ';', malformed descriptors, non-permutation / unknown / duplicate namespace arrays, requested names that differ from a namespace only by letter case or a blank (must fail), sets with two namespaces that differ only that way (every order must behave as usual), remapper_a(from,to).map_field_desc on valid and malformed descriptors, the repository's fixture. Oracle on the implementation: independent reference reorder (equal up to order), identity law, inverse law on the implementation's own output (when no_collision and clean hold), two-step law on the implementation's own output (reordering the result to a further order Y = reordering the original to Y directly, Ok up to order or Err; every Y for n <= 3, six of the 24 for n = 4; same hypotheses), failure law, collision law (two entries that get the same key in the new first namespace => Err) and its converse (none of the four causes of C08_reorder_err_iff => Ok), key/info sync of the result, entry count. The harness' evaluation of wf / no_collision / class_names_clean / entry_without_name / key_collision is itself compared with the Coq definitions (CHyp cases) on every input of the special streams and on the small sets of the permutation streams. One evaluation = one (mapping set, namespace array); non-trivial = at least one class and the result is Ok; distinct by the printed input.".into();
 
 	// 0. the repository's fixture (VERIF_REPO, default /repo); a missing or renamed fixture is a note, not a verdict
 	{
@@ -560,13 +601,37 @@ pub fn run(ctx: &Ctx) -> anyhow::Result<Report> {
 		if i % 3 == 2 { punch(&mut rng, &mut m, 8); }
 		let mut names = m.ns.clone();
 		rng.shuffle(&mut names);
-		match i % 4 {
+		// a name that a normalising comparison (case folding, trimming) would take for `s`, but is not `s`
+		let near = |rng: &mut Rng, s: &S| -> S {
+			let mut t = s.clone();
+			match rng.below(5) {
+				0 => { if let Some(c) = t.first_mut() { *c ^= 0x20; } }
+				1 => { for c in t.iter_mut() { if (0x61..=0x7a).contains(c) { *c -= 0x20; } } }
+				2 => t.push(' ' as u32),
+				3 => t.insert(0, ' ' as u32),
+				_ => { if let Some(c) = t.last_mut() { *c ^= 0x20; } }
+			}
+			if t == *s { t.push('_' as u32); }
+			t
+		};
+		match i % 6 {
 			0 => { let a = rng.below(n); let b = (a + 1 + rng.below(n - 1)) % n; names[a] = names[b].clone(); }
 			1 => { let a = rng.below(n); names[a] = cps_str("nonexistent"); }
 			2 => { let a = rng.below(n); let b = (a + 1 + rng.below(n - 1)) % n; m.ns[a] = m.ns[b].clone(); }
-			_ => { for x in names.iter_mut() { *x = m.ns[n - 1].clone(); } }
+			3 => { for x in names.iter_mut() { *x = m.ns[n - 1].clone(); } }
+			// a requested name that differs from a namespace of the set only by letter case / a blank: unknown, must fail
+			4 => { let a = rng.below(n); names[a] = near(&mut rng, &names[a].clone()); }
+			// two namespaces of the set that differ only by letter case / a blank: distinct names, an ordinary permutation
+			_ => {
+				let a = rng.below(n); let b = (a + 1 + rng.below(n - 1)) % n;
+				let v = near(&mut rng, &m.ns[a].clone());
+				if !m.ns.contains(&v) { m.ns[b] = v; }
+				r.count(&format!("names:kind{}", i % 6));
+				all_perms(&mut r, &m, "near-equal-namespaces")?;
+				continue;
+			}
 		}
-		r.count(&format!("names:kind{}", i % 4));
+		r.count(&format!("names:kind{}", i % 6));
 		one(&mut r, &m, &names, "non-permutation")?;
 	}
 
